@@ -122,6 +122,36 @@ fn main() {
                     json!({ "clusters": clusters.iter().map(|c| c.iter().map(|&&p| p + 1).collect::<Vec<_>>()).collect::<Vec<_>>() })
                 })
             }
+            "jobdb" => {
+                // the job-level wrapper over the same neighbour lists: point p is a job of the given shape; every listed neighbour costs 0.5, epsilon is 1
+                let (order, nb, min_pts) = (seq0(&case["order"]), seqs0(&case["nb"]), case["minPts"].as_u64().unwrap() as usize);
+                let shapes: Vec<String> = case["shapes"].as_array().unwrap().iter().map(|s| s.as_str().unwrap().to_string()).collect();
+                deadline(secs, move || {
+                    use vrp_core::models::problem::*;
+                    let with = |loc: bool| SingleBuilder::default().add_place(JobPlaceBuilder::default().location(if loc { Some(0) } else { None }).duration(1.).build().unwrap()).build().unwrap();
+                    let jobs: Vec<Job> = shapes
+                        .iter()
+                        .enumerate()
+                        .map(|(i, shape)| match shape.as_str() {
+                            "single" => SingleBuilder::default().id(&format!("p{i}")).location(0).unwrap().build_as_job().unwrap(),
+                            "single-noloc" => SingleBuilder::default().id(&format!("p{i}")).add_place(JobPlaceBuilder::default().location(None).duration(1.).build().unwrap()).build_as_job().unwrap(),
+                            "multi" => MultiBuilder::default().id(&format!("p{i}")).add_job(with(true)).add_job(with(true)).build_as_job().unwrap(),
+                            "multi-mixed" => MultiBuilder::default().id(&format!("p{i}")).add_job(with(false)).add_job(with(true)).build_as_job().unwrap(),
+                            _ => MultiBuilder::default().id(&format!("p{i}")).add_job(with(false)).add_job(with(false)).build_as_job().unwrap(),
+                        })
+                        .collect();
+                    let vehicle = VehicleBuilder::default().id("v").add_detail(VehicleDetailBuilder::default().set_start_location(0).build().unwrap()).build().unwrap();
+                    let driver = Driver { costs: Costs { fixed: 0., per_distance: 0., per_driving_time: 0., per_waiting_time: 0., per_service_time: 0. }, dimens: Default::default(), details: vec![] };
+                    let fleet = Fleet::new(vec![std::sync::Arc::new(driver)], vec![std::sync::Arc::new(vehicle)], |_| |_| 0);
+                    let index = |job: &Job| jobs.iter().position(|j| j == job).unwrap();
+                    let given: Vec<Job> = order.iter().map(|&p| jobs[p].clone()).collect();
+                    let clusters = vrp_core::construction::clustering::dbscan::create_job_clusters(&given, &fleet, Some(min_pts), Some(1.), |_, job| nb[index(job)].iter().map(|&q| (&jobs[q], 0.5)));
+                    match clusters {
+                        Ok(cs) => json!({ "clusters": cs.iter().map(|c| { let mut v: Vec<usize> = c.iter().map(|j| index(j) + 1).collect(); v.sort(); v }).collect::<Vec<_>>() }),
+                        Err(e) => json!({ "clusters": [], "error": e.to_string() }),
+                    }
+                })
+            }
             "km" => {
                 let (d, k) = (mat(&case["d"]), case["k"].as_u64().unwrap() as usize);
                 deadline(secs, move || {
